@@ -61,6 +61,85 @@ Proof.
   rewrite E. lra.
 Qed.
 
+(* ---------------------------------------------------------------- model-level corollaries for the leaf nodes *)
+Section ModelLevel.
+  Context {El : Elem RR} (LW : ElemLaws El).
+  Notation ei := (ein LW).
+  Notation V := (nat -> El).
+
+  Lemma sv_get_map_mul lamda (alpha : sv R) i :
+    sv_get 0 (sv_map (Rmult lamda) alpha) i = lamda * sv_get 0 alpha i.
+  Proof.
+    destruct alpha as [a|l]; simpl; [reflexivity|].
+    rewrite <- (Rmult_0_r lamda) at 1. apply map_nth.
+  Qed.
+
+  (* L1Reg(lamda)(alpha, y) is the proximal point of x |-> sum_i alpha_i * lamda * |x_i| (alpha scalar or array) *)
+  Theorem l1reg_model_prox s lamda (alpha : sv R) (y : list El) :
+    (forall i, 0 <= lamda * sv_get 0 alpha i) ->
+    exists p, @apply RR El (@L1Reg RR El s lamda) alpha y = Some p /\ length p = length y /\
+      prox_at LW (length y) (fun _ => True)
+              (fun x => sumn (length y) (fun i => sv_get 0 alpha i * (lamda * eabs (x i)))) (fn y) (fn p).
+  Proof.
+    intros H. eexists. split; [reflexivity|].
+    destruct (soft_thresh_prox LW (sv_map (Rmult lamda) alpha) y) as [Hl [_ Hvi]].
+    { intros i. rewrite sv_get_map_mul. apply H. }
+    split; [exact Hl|]. split; [exact I|]. intros z _. specialize (Hvi z I).
+    assert (E1 : forall x : V, sumn (length y) (fun i => sv_get 0 alpha i * (lamda * eabs (x i))) =
+                             sumn (length y) (fun i => sv_get 0 (sv_map (Rmult lamda) alpha) i * eabs (x i)))
+      by (intros; apply sumn_ext; intros; rewrite sv_get_map_mul; ring).
+    rewrite !E1.
+    exact Hvi.
+  Qed.
+
+  (* projection onto a translated set: out = proj_S(y - b) + b is the projection of y onto S + b *)
+  Theorem proj_translate n (S : V -> Prop) (y b d q out : V) :
+    localP n S ->
+    (forall i, (i < n)%nat -> d i = esub (y i) (b i)) ->
+    (forall i, (i < n)%nat -> out i = eadd (q i) (b i)) ->
+    proj_at LW n S d q ->
+    proj_at LW n (fun z => S (fsub z b)) y out.
+  Proof.
+    intros LS Hd Ho [Hq Hvi]. split.
+    - apply (LS q); auto. intros i Hi. unfold fsub. rewrite Ho by auto.
+      apply (ein_ext LW). intros c. einx LW. ring.
+    - intros z Hz. specialize (Hvi (fsub z b) Hz).
+      unfold dotn in *. rewrite <- (sumn_zero n) in *. 
+      assert (E : sumn n (fun i => ei (fsub y out i) (fsub z out i)) = sumn n (fun i => ei (fsub d q i) (fsub (fsub z b) q i))).
+      { apply sumn_ext. intros i Hi. unfold fsub. rewrite Ho, Hd by auto.
+        apply (ein_translate LW). intros w. einx LW. reflexivity. }
+      rewrite E. exact Hvi.
+  Qed.
+
+  (* L2Proj(eps, y = b) (axes = None): the projection onto the ball of radius eps centred at the bias b *)
+  Theorem l2proj_model_proj s eps (b : sv El) (alpha : sv R) (y : list El) : 0 < eps ->
+    exists p, @apply RR El (@L2Proj RR El s eps b None) alpha y = Some p /\ length p = length y /\
+      proj_at LW (length y)
+        (fun z => dotn LW (length y) (fsub z (fun i => sv_get e0 b i)) (fsub z (fun i => sv_get e0 b i)) <= eps * eps)
+        (fn y) (fn p).
+  Proof.
+    intros He. eexists. split; [reflexivity|].
+    set (d := imap (fun (i : nat) (x : El) => esub x (sv_get e0 b i)) y).
+    assert (Hdl : length d = length y) by apply imap_length.
+    destruct (l2_proj_is_proj LW eps d He) as [Hl HP]. rewrite Hdl in *.
+    split; [rewrite imap_length; exact Hl|].
+    apply (proj_translate (length y) (fun z => dotn LW (length y) z z <= eps * eps) (fn y) (fun i => sv_get e0 b i)
+                          (fn d) (fn (@l2_proj RR El eps d))); auto.
+    - intros x x' Hx Hle. rewrite <- (dotn_ext LW (length y) x x' x x'); auto.
+    - intros i Hi. unfold fn, d. rewrite (nth_imap _ y i e0 e0); auto.
+    - intros i Hi. unfold fn. rewrite (nth_imap _ _ i e0 e0) by (rewrite Hl; auto). reflexivity.
+  Qed.
+
+  (* L1Proj / LInfProj nodes are the thresh functions *)
+  Lemma l1proj_model s eps alpha (y : list El) : @apply RR El (@L1Proj RR El s eps) alpha y = @l1_proj RR El eps y.
+  Proof. reflexivity. Qed.
+  Lemma linfproj_model s eps bias alpha (y : list El) :
+    @apply RR El (@LInfProj RR El s eps bias) alpha y = Some (@linf_proj RR El eps y bias).
+  Proof. reflexivity. Qed.
+  Lemma noop_model s alpha (y : list El) : @apply RR El (@NoOp RR El s) alpha y = Some y.
+  Proof. reflexivity. Qed.
+End ModelLevel.
+
 (* ---------------------------------------------------------------- satisfiability witnesses *)
 Section Witness.
   Context {El : Elem RR} (LW : ElemLaws El).
